@@ -12,14 +12,14 @@ DRIVER_PKG = "cmd/verif_c12"
 SHARD = 40
 
 STORE_FLAGS = [(lk, ob, dm) for dm in ("stored_and_local", "local_else_stored") for (lk, ob) in ((True, True), (False, True), (True, False), (False, False))]
-COMPACT_FLAGS = [(True, True), (False, True), (True, False), (False, False)]      # (stale_prev, blind_repoint)
+COMPACT_FLAGS = [(sp, bl, sh) for sh in (True, False) for bl in (True, False) for sp in (True, False)]   # (stale_prev, blind_repoint, shared_refs)
 VARIANTS = []
-for (sp, bl) in COMPACT_FLAGS:
+for (sp, bl, sh) in COMPACT_FLAGS:
     for f in STORE_FLAGS:
         VARIANTS.append({
-            "name": "stale_prev=%s,blind_repoint=%s|lenkeys=%s,objneq=%s,dup=%s" % ((sp, bl) + f),
-            "findings": (["F12a"] if sp else []) + (["F12b"] if bl else []) + (["F01a"] if f[0] else []) + (["F02b"] if f[1] else [])
-                        + (["F02a"] if f[2] == "stored_and_local" else [])})
+            "name": "stale_prev=%s,blind_repoint=%s,shared_refs=%s|lenkeys=%s,objneq=%s,dup=%s" % ((sp, bl, sh) + f),
+            # the write-path deviations (F01a, F02a, F02b) are findings of C01/C02: here they only select the model of the write path
+            "findings": (["F12a"] if sp else []) + (["F12b"] if bl else []) + (["F12c"] if sh else [])})
 VARIANTS[0]["name"] = "current(" + VARIANTS[0]["name"] + ")"
 VARIANTS[-1]["name"] = "fixed(" + VARIANTS[-1]["name"] + ")"
 
@@ -39,7 +39,8 @@ TRUSTED = [
     "StoreEntities called at that hook (the compactor holds no lock, so this is a legal schedule); true parallel interleavings inside "
     "one badger transaction are not explored",
     "reference-index keys are not modelled: they only count towards the flush threshold (2 keys per target); relationship queries are "
-    "compared before/after on the implementation (predicted 'unchanged' by the repaired variant only)",
+    "compared before/after on the implementation; the model predicts 'unchanged' unless the comparison base can be stale (F12a), a "
+    "writer raced, or a committed flush deleted reference keys shared with a kept version of the same recorded time (F12c)",
 ]
 ASSUMPTIONS = ["one compaction at a time on a dataset (CompactAsync refuses a second one); the racing writer commits whole batches "
                "between two flushes; no dataset deletion during compaction"]
@@ -108,6 +109,18 @@ def witness_cases():
     cs.append(compact_case(["a"], ["e1"], [B("a", E("e1", A), E("e1", A))],
                            [{"ds": "a", "threshold": 1, "race": {"at": 1, "ents": [E("e1", {"p1": "c"})]}}],
                            later=[[B("a", E("e1", A))] + block("a", ["e1"], "x0")]))
+    # F12c: an in-batch duplicate (same recorded time) carrying a reference: removing it deletes the reference keys it shares
+    # with the kept version, the relation disappears from the index
+    cs.append(compact_case(["a"], ["e1", "e2"], [B("a", E("e1", A, r), E("e1", A, r))], [{"ds": "a", "threshold": 0}]))
+    cs.append(compact_case(["a"], ["e1", "e2"], [B("a", E("e1", {"p2": sc.NESTED1}, r), E("e1", {"p2": sc.NESTED1}, r))], [{"ds": "a", "threshold": 1}]))
+    # F12b again, the duplicate injected with raw deletes (does not depend on F02a)
+    cs.append(compact_case(["a"], ["e1"], [B("a", E("e1", A)), {"op": "dup", "ds": "a", "id": "http://v/e1"}],
+                           [{"ds": "a", "threshold": 1, "race": {"at": 1, "ents": [E("e1", {"p1": "c"})]}}],
+                           later=[[B("a", E("e1", A))] + block("a", ["e1"], "x1")]))
+    # write-path flags, so that the detected variant is the right one: F01a (engineered un-delete), F02b (nested entity re-posted)
+    old, new = sc.ENGINEERED[0]
+    cs.append(compact_case(["a"], ["e1"], [B("a", sc.with_id("e1", old)), B("a", sc.with_id("e1", new))], [{"ds": "a", "threshold": 1}]))
+    cs.append(compact_case(["a"], ["e1"], [B("a", E("e1", {"p2": sc.NESTED1}))] * 3, [{"ds": "a", "threshold": 2}]))
     # legacy duplicates on two entities, killed at the second flush, compacted again
     cs.append(compact_case(["a"], ["e1", "e2"], [B("a", E("e1", A, r), E("e2", Bb)), {"op": "dup", "ds": "a", "id": "http://v/e1"},
                                                   {"op": "dup", "ds": "a", "id": "http://v/e2"}, {"op": "dup", "ds": "a", "id": "http://v/e1"}],
@@ -342,7 +355,7 @@ def term(case, obs):
 def predict_text(c, o):
     t = term(c, o)
     body = "Definition c : tcase := %s.\n" % t
-    body += "Eval vm_compute in (map (fun v => first_bad v store0 c 0%N) variants, map spec_op_ok c).\n"
+    body += "Eval vm_compute in (map (fun v => first_bad v false store0 c 0%N) variants, map spec_op_ok c).\n"
     ok, out, _ = vlib.coq_eval("C12p", CHECK_MODULE.split(), body)
     return "first model-level op index (writes, dups, raw dumps, compactions) not predicted, per variant; spec per op: " + out.strip()[-3000:]
 
@@ -354,10 +367,25 @@ def _compactions(c, o):
 
 
 def attribute(c, o):
+    """finding whose trigger signature the case carries (None = the failure is not explained by a known finding)"""
     for op, oo in _compactions(c, o):
         if oo.get("raced"):
             return "F12b"
-    return "F12a"
+    with_refs = {}
+    for op in c["ops"]:
+        if op["op"] == "batch":
+            ids = [e["id"] for e in op["ents"] if e.get("refs")]
+            if len(ids) != len(set(ids)):
+                return "F12c"          # an element with references repeated inside one batch
+            for i in ids:
+                with_refs[(op["ds"], i)] = with_refs.get((op["ds"], i), 0) + 1
+        elif op["op"] == "dup":
+            k = (op["ds"], op["id"].rsplit("/", 1)[-1])
+            if k in with_refs:
+                with_refs[k] += 1
+    if any(n >= 2 for n in with_refs.values()):
+        return "F12a"                  # an entity with at least two versions carrying references: the base can go stale
+    return None
 
 
 def size(c):
